@@ -484,8 +484,8 @@ func TestExhaustiveSequences(t *testing.T) {
 
 func props() []rp.Prop {
 	return []rp.Prop{
-		rp.P[seqCase]{Name: "hook-seq", Checks: ev.Pick(40000, 1500000) / ev.Shards(), Gen: genSeq("hook", 12), Check: check},
-		rp.P[seqCase]{Name: "socket-seq", Checks: ev.Pick(1600, 48000) / ev.Shards(), Gen: genSeq("socket", 6), Check: check},
+		rp.P[seqCase]{Name: "hook-seq", Checks: ev.Pick(40000, 4000000) / ev.Shards(), Gen: genSeq("hook", 12), Check: check},
+		rp.P[seqCase]{Name: "socket-seq", Checks: ev.Pick(1600, 96000) / ev.Shards(), Gen: genSeq("socket", 6), Check: check},
 	}
 }
 
